@@ -159,7 +159,7 @@ fn unknown_key(host: Host, src: &mut Src, used: &[Vec<u8>]) -> Value {
     let known = host.known_keys();
     for _ in 0..8 {
         let base = known[src.below(known.len())];
-        let cand: String = match src.below(8) {
+        let cand: String = match src.below(9) {
             0 => format!("{}x", base),
             1 => base[..base.len() - 1].to_string(),
             2 => {
@@ -171,6 +171,30 @@ fn unknown_key(host: Host, src: &mut Src, used: &[Vec<u8>]) -> Value {
             3 => String::new(),
             4 => base.to_uppercase(),
             5 => format!(" {}", base),
+            6 => {
+                // another spelling convention of the same name: snake_case, kebab-case, PascalCase, lower
+                let mut snake = String::new();
+                for ch in base.chars() {
+                    if ch.is_uppercase() {
+                        snake.push('_');
+                        snake.extend(ch.to_lowercase());
+                    } else {
+                        snake.push(ch);
+                    }
+                }
+                match src.below(4) {
+                    0 => snake,
+                    1 => snake.replace('_', "-"),
+                    2 => {
+                        let mut c = base.chars();
+                        match c.next() {
+                            Some(f) => f.to_uppercase().collect::<String>() + c.as_str(),
+                            None => String::new(),
+                        }
+                    }
+                    _ => base.to_lowercase(),
+                }
+            }
             _ => {
                 let n = src.range(1, 40);
                 text_of_len(src, n)
@@ -199,7 +223,8 @@ fn unknown_case(host: Host, src: &mut Src, obs: &mut Obs) -> CaseResult {
         m
     };
     // the unknown members
-    let n_unknown = src.range(1, 3);
+    // usually 1-3 unknown members; sometimes so many that the map head widens (>= 24 entries)
+    let n_unknown = if src.chance(1, 12) { *src.pick(&[12usize, 13, 14, 17, 24, 30]) } else { src.range(1, 3) };
     let mut members: Vec<(Value, Value)> = vec![];
     let mut used: Vec<Vec<u8>> = vec![];
     let mut container = false;
